@@ -269,6 +269,55 @@ def network_routes(ctx, col, rng, tn0, netdesc):
         except tm.NotExact as e:
             oracle(ctx, "overlap[output_inds]", desc2, ref2, (), 2 * e0, ov, False, why=str(e))
     guarded("norm[output_inds]", r9b)
+
+    # 8b'. overlap with a partner of DIFFERENT structure and no explicit output labels: the outputs default to the labels
+    #      that occur once in self; every other label of the partner - one that sits on several of its tensors, a dangling
+    #      one, one named like a summed label of self - is private to the bra (coq/C01/Norm.v: sum_O A[O] conj(B[O]))
+    def r9c():
+        cplx = np.iscomplexobj(base[0][1])
+        O = tuple(tn0.outer_inds())
+        sizes = {ix: tn0.ind_size(ix) for ix in tn0.ind_map}
+        pool = list("abcdef")
+        nt = rng.randint(1, 3)
+        lab = [[] for _ in range(nt)]
+        for ix in O:
+            for k in rng.sample(range(nt), min(nt, rng.choice([1, 1, 2]))):
+                lab[k].append(ix)
+        extras = [ix for ix in pool if ix not in O]
+        for ix in rng.sample(extras, min(len(extras), rng.choice([0, 1, 2]))):
+            for k in rng.sample(range(nt), min(nt, rng.choice([1, 2]))):
+                lab[k].append(ix)
+        ots = []
+        for k in range(nt):
+            inds = tuple(lab[k])
+            if len(inds) > 3:
+                inds = inds[:3] if all(ix not in O for ix in inds[3:]) else inds
+            ots.append(qtn.Tensor(rand_array(rng, [sizes.get(ix, 2) for ix in inds], cplx), inds, tags=[f"O{k}"]))
+        other = qtn.TensorNetwork(ots)
+        if set(O) - set(other.ind_map):
+            return  # a truncated tensor lost an output label: not a valid partner
+        e1 = rng.choice([0, 0, 1])
+        other.exponent = float(e1)
+        base2 = tm.qtn_tensors(other)
+        ov = tn0.copy().overlap(other)
+        bra = [(tuple(i if i in O else i + "*" for i in inds), np.conj(arr)) for inds, arr in base2]
+        ref2 = bra + list(base)
+        desc2 = {**netdesc, "route": "overlap[default_outputs]", "outs": list(O),
+                 "partner": [list(t.inds) for t in other.tensors], "partner_exponent": e1}
+        ocnt = {}
+        for t in other.tensors:
+            for ix in t.inds:
+                ocnt[ix] = ocnt.get(ix, 0) + 1
+        ctx.count((netdesc["id"], "overlap[default_outputs]"), any(ocnt.get(ix, 0) > 1 for ix in O) or
+                  any(c == 1 and ix not in O for ix, c in ocnt.items()))
+        ctx.bump("route:overlap[default_outputs]")
+        etot = e0 + e1
+        shift = -etot if etot < 0 else 0
+        try:
+            col.add(desc2, tm.dense_check_expr(ref2, (), etot + shift, np.asarray([ov]) * 10.0 ** shift))
+        except tm.NotExact as e:
+            oracle(ctx, "overlap[default_outputs]", desc2, ref2, (), etot, ov, False, why=str(e))
+    guarded("overlap[default_outputs]", r9c)
     # 8c. a non-in-place PARTIAL contraction with norm equalisation / exponent stripping returns a network with the same
     #     value AND leaves the queried network denoting the same value (later routes on it must still agree)
     if not hyper and tn0.num_tensors >= 3:
